@@ -45,7 +45,9 @@ Definition rnd_pos (prec : Z) (q : Q) : Q :=
 Definition rnd (prec : Z) (q : Q) : Q := if Qnum q <=? 0 then 0%Q else rnd_pos prec q.
 
 Definition q_is_zero (q : Q) : bool := Qnum q =? 0.
-Definition q_is_int (q : Q) : bool := Zpos (Qden (Qred q)) =? 1.
+Definition q_is_int (q : Q) : bool := Qnum q mod Zpos (Qden q) =? 0.
+(* the integer an integral rational denotes *)
+Definition q_int_val (q : Q) : Z := Qnum q / Zpos (Qden q).
 
 (* ------------------------------------------------------------------------------------------------ *)
 (* IEEE arithmetic on xnum (add sub mul div, fmod, negation, comparisons)                           *)
@@ -260,7 +262,7 @@ Definition impl_s2n (prec : Z) (s : bytes) : xnum :=
           match r' with
           | [] => if q_is_zero q then XFin neg 0
                   else if ((e <? -4900) || (4900 <? e))%Z then XNaN
-                  else XFin neg (rnd prec (Qred (Qmult q (pow10 e))))
+                  else XFin neg (rnd prec (if (e =? 0)%Z then q else Qred (Qmult q (pow10 e))))
           | _ => XNaN
           end
       | None => XNaN
@@ -314,7 +316,7 @@ Definition spec_n2s (prec : Z) (x : xnum) : bytes :=
       if q_is_zero m then [48]
       else
         let sign : bytes := if neg then [45] else [] in
-        if q_is_int m then sign ++ Z_to_dec (Qnum (Qred m))
+        if q_is_int m then sign ++ Z_to_dec (q_int_val m)
         else
           let j := shortest_decimals prec m 1 60 in
           sign ++ fixed_dec (round_dec m j) j
@@ -334,8 +336,8 @@ Definition impl_n2s (x : xnum) : bytes :=
       if q_is_zero m then [48]
       else
         let sign : bytes := if neg then [45] else [] in
-        let v := (if neg then - Qnum (Qred m) else Qnum (Qred m))%Z in
-        if q_is_int m && (ll_min <=? v)%Z && (v <=? ll_max)%Z then sign ++ Z_to_dec (Qnum (Qred m))
+        let v := (if neg then - q_int_val m else q_int_val m)%Z in
+        if q_is_int m && (ll_min <=? v)%Z && (v <=? ll_max)%Z then sign ++ Z_to_dec (q_int_val m)
         else sign ++ fixed_dec (round_dec m 1) 1
   end.
 
